@@ -28,6 +28,19 @@
 #include <soundswallower/bin_mdef.h>
 #include <soundswallower/mdef.h>
 #include <soundswallower/dict.h>
+#include <soundswallower/ssverif.h>
+
+/* the frame scores the search itself used, recorded through hook H1 */
+typedef struct tapbuf { int16 *s; int nsen, nfr, cap; unsigned char *have; } tapbuf;
+static void tap_cb(void *user, int fr, const short *sc, int n)
+{
+    tapbuf *t = (tapbuf *)user;
+    if (fr < 0 || fr > 100000) return;
+    if (t->nsen == 0) t->nsen = n;
+    if (n != t->nsen) return;
+    if (fr >= t->cap) { int nc = t->cap ? t->cap * 2 : 256; while (nc <= fr) nc *= 2; t->s = (int16 *)realloc(t->s, sizeof(int16) * (size_t)nc * (size_t)n); t->have = (unsigned char *)realloc(t->have, (size_t)nc); memset(t->have + t->cap, 0, (size_t)(nc - t->cap)); t->cap = nc; }
+    memcpy(t->s + (size_t)fr * (size_t)n, sc, sizeof(int16) * (size_t)n); t->have[fr] = 1; if (fr + 1 > t->nfr) t->nfr = fr + 1;
+}
 
 #define NEG (-(1 << 29))
 #define MAXP 48
@@ -218,8 +231,8 @@ static void run(long i, vh_rng *r)
 {
     vd_cfg cfg; vd_search sp; vd_gram g; vd_audio a; vd_pattern p; vd_runinfo info; decoder_t *d; ograph og; oresult full, cons, pruned;
     int lang = vh_chance(r, 0.12) ? VD_FR : VD_EN, beam_mode, T, t, nsen, have_graph = 0, have_score, k, nw = 0, ef_last = -1; int32 score = 0x7fffffff; const char *hyp, *why = NULL;
-    int16 *sen = NULL; vd_result res; oseg *segs = NULL; ocons oc; char sdesc[300], pdesc[200], hypbuf[2048];
-    memset(&g, 0, sizeof(g)); memset(&a, 0, sizeof(a)); memset(&res, 0, sizeof(res)); memset(&full, 0, sizeof(full)); memset(&cons, 0, sizeof(cons)); memset(&pruned, 0, sizeof(pruned));
+    int16 *sen = NULL; tapbuf tap; vd_result res; oseg *segs = NULL; ocons oc; char sdesc[300], pdesc[200], hypbuf[2048];
+    memset(&tap, 0, sizeof(tap)); memset(&g, 0, sizeof(g)); memset(&a, 0, sizeof(a)); memset(&res, 0, sizeof(res)); memset(&full, 0, sizeof(full)); memset(&cons, 0, sizeof(cons)); memset(&pruned, 0, sizeof(pruned));
     vd_cfg_default(&cfg, lang);
     cfg.compallsen = 1;
     cfg.cionly = vh_chance(r, 0.1);
@@ -236,7 +249,9 @@ static void run(long i, vh_rng *r)
     vd_search_desc(&sp, sdesc, sizeof(sdesc)); vd_pattern_desc(&p, pdesc, sizeof(pdesc));
     vh_desc("%s cmn=%s cionly=%d | %s | %s | audio: %s | %s\n%s", lang == VD_FR ? "fr-fr" : "en-us", cfg.cmn, cfg.cionly, sdesc, g.desc, a.desc, pdesc, g.text.s);
     if (vd_gram_load(d, &g) != 0) { vh_count("grammar_load_failed", 1); vh_inconc("the decoder refused the generated grammar (%s)", g.desc); goto out; }
+    memset(&tap, 0, sizeof(tap)); ssv_senscr_tap_user = &tap; ssv_senscr_tap = tap_cb;
     vd_run(d, &a, r, &p, NULL, NULL, &info);
+    ssv_senscr_tap = NULL;
     if (info.failed) { vh_inconc("utterance calls failed (judged by C03)"); goto out; }
     vh_ctx("decoder_hyp");
     hyp = decoder_hyp(d, &score); have_score = (score != 0x7fffffff);
@@ -252,6 +267,14 @@ static void run(long i, vh_rng *r)
     if (acmod_rewind(d->acmod) < 0) { vh_inconc("acmod_rewind failed"); goto out; }
     sen = (int16 *)malloc(sizeof(int16) * (size_t)T * (size_t)nsen);
     for (t = 0; t < T; ++t) { int fr = t; const int16 *s = acmod_score(d->acmod, &fr); if (!s) { vh_inconc("acmod_score failed at frame %d", t); goto out; } memcpy(sen + (size_t)t * (size_t)nsen, s, sizeof(int16) * (size_t)nsen); acmod_advance(d->acmod); }
+    /* the oracle works on the scores the search itself used (hook H1); the post-hoc re-computation is only compared with them */
+    {
+        int missing = 0, differ = 0;
+        for (t = 0; t < T; ++t) { if (t >= tap.nfr || !tap.have[t] || tap.nsen != nsen) { ++missing; continue; } if (memcmp(tap.s + (size_t)t * (size_t)nsen, sen + (size_t)t * (size_t)nsen, sizeof(int16) * (size_t)nsen)) ++differ; }
+        if (missing) { vh_inconc("%d of %d frames were not scored through acmod_score during the utterance", missing, T); goto out; }
+        if (differ) { vh_count("utterances_with_frames_not_reproduced_post_hoc", 1); vh_count("frames_not_reproduced_post_hoc", differ); } else vh_count("utterances_reproduced_post_hoc", 1);
+        memcpy(sen, tap.s, sizeof(int16) * (size_t)T * (size_t)nsen);
+    }
     vh_ctx("oracle");
     if (graph_build(&og, d, lang, cfg.cionly, &sp, &why) < 0) { have_graph = 1; vh_count("outside_oracle_domain", 1); vh_inconc("outside the oracle's domain: %s", why); goto out; }
     have_graph = 1;
@@ -286,6 +309,17 @@ static void run(long i, vh_rng *r)
         if (cons.opt_final[ef_last] < score) vh_viol(beam_mode == 2 ? "score_not_achievable|reported_segmentation" : "score_not_achievable|reported_segmentation_pruned", "reported score %d, but the best alignment of the reported words to their reported frames scores %d", score, cons.opt_final[ef_last]);
         else if (beam_mode == 2 && cons.opt_final[ef_last] != score) vh_viol("score_not_achievable|segmentation_beats_optimum", "the reported segmentation admits score %d > reported optimum %d", cons.opt_final[ef_last], score);
         else vh_count("segmentations_achieve_reported_score", 1);
+        if (vh_replay && nw > 0) {
+            int ai; for (ai = 0; ai < og.na; ++ai) { oarc *a2 = &og.a[ai]; if (a2->from == og.start && !strcmp(a2->word, segs[0].word)) { ohmm *h = &a2->root[a2->filler ? 0 : og.sil]; const uint16 *sq = og.m->sseq[h->ssid]; uint8 **tp = og.tm->tp[h->tmat]; int t2;
+                vh_note("arc %d->%d %s: np=%d filler=%d lp=%d wip=%d pip=%d ssid(lc=SIL)=%d senones %d %d %d tmat %d tp: 00=%d 01=%d 02=%d 11=%d 12=%d 13=%d 22=%d 23=%d", a2->from, a2->to, a2->word, a2->np, a2->filler, a2->lp, og.wip, og.pip, h->ssid, sq[0], sq[1], sq[2], h->tmat, tp[0][0], tp[0][1], tp[0][2], tp[1][1], tp[1][2], tp[1][3], tp[2][2], tp[2][3]);
+                for (t2 = 0; t2 <= segs[0].ef && t2 < T; ++t2) vh_note("  frame %d: senone costs %d %d %d", t2, sen[(size_t)t2 * nsen + sq[0]], sen[(size_t)t2 * nsen + sq[1]], sen[(size_t)t2 * nsen + sq[2]]); } }
+        }
+        if (vh_replay && nw > 0) {
+            fsg_search_t *fs2 = (fsg_search_t *)d->search; fsg_pnode_t *pn;
+            for (pn = fs2->lextree->root[og.start]; pn; pn = pn->sibling) if (pn->leaf && !strcmp(fsg_model_word_str(fs2->fsg, fsg_link_wid(pn->next.fsglink)), segs[0].word))
+                vh_note("real lextree root for %s at the start state: ssid %d tmat %d logs2prob %d ci_ext %d ctxt %08x %08x (SIL=%d)", segs[0].word, hmm_nonmpx_ssid(&pn->hmm), pn->hmm.tmatid, pn->logs2prob, pn->ci_ext, pn->ctxt.bv[0], pn->ctxt.bv[1], og.sil);
+        }
+        if (vh_replay) { long cum = 0; for (k = 0; k < res.nseg; ++k) { cum += res.seg[k].ascr + res.seg[k].lscr; vh_note("seg %d: %-12s [%d,%d] ascr %d lscr %d  cumulative real %ld | constrained oracle best token at that frame: any-state %d final-state %d", k, res.seg[k].word, res.seg[k].sf, res.seg[k].ef, res.seg[k].ascr, res.seg[k].lscr, cum, res.seg[k].ef >= 0 ? cons.opt_any[res.seg[k].ef] : 0, res.seg[k].ef >= 0 ? cons.opt_final[res.seg[k].ef] : 0); } }
     }
     vh_nontrivial("%ld", i);
     vh_count(beam_mode == 2 ? "beams_open" : beam_mode == 1 ? "beams_narrow" : "beams_default", 1);
@@ -298,7 +332,7 @@ static void run(long i, vh_rng *r)
 out:
     if (have_graph) graph_free(&og);
     oresult_free(&full); oresult_free(&cons); oresult_free(&pruned);
-    free(sen); free(segs);
+    free(sen); free(segs); free(tap.s); free(tap.have); ssv_senscr_tap = NULL;
     vd_result_free(&res);
     vd_audio_free(&a);
     vd_gram_free(&g);
